@@ -12,6 +12,24 @@ def b01(b):
     return "1" if b else "0"
 
 
+
+def fresh_decode(fn):
+    """decode, scribble over every field of the returned object, decode again and report the second result: what a decoder
+    returns must not depend on what a caller did with an earlier result (decoders hand out independent objects)."""
+    first = fn()
+    try:
+        import attr
+        for a in attr.fields(type(first)):
+            v = getattr(first, a.name)
+            if isinstance(v, bool):
+                setattr(first, a.name, not v)
+            elif isinstance(v, int):
+                setattr(first, a.name, (v + 1) % 3)
+    except Exception:  # noqa  (not an attrs object, frozen, validators ...: nothing to scribble on)
+        pass
+    return fn()
+
+
 class C20(fw.Prop):
     id = "C20"
     anchors = ["dlms_cosem/protocol/xdlms/conformance.py", "dlms_cosem/security.py",
@@ -59,7 +77,7 @@ class C20(fw.Prop):
 
             def impl():
                 from dlms_cosem.protocol.xdlms.conformance import Conformance
-                c = Conformance.from_bytes(b"\x00" + w.to_bytes(3, "big"))
+                c = fresh_decode(lambda: Conformance.from_bytes(b"\x00" + w.to_bytes(3, "big")))
                 return "ok " + str(sum((1 << k) for k, n in enumerate(CONF_NAMES) if getattr(c, n)))
             return fw.Case(f"fld conf dec 00{w:06x}", impl, "prop", d, tags)
         if op == "scf_to":
@@ -78,7 +96,7 @@ class C20(fw.Prop):
 
             def impl():
                 from dlms_cosem.security import SecurityControlField
-                f = SecurityControlField.from_bytes(bytes([v]))
+                f = fresh_decode(lambda: SecurityControlField.from_bytes(bytes([v])))
                 return f"ok {f.security_suite} {b01(f.authenticated)} {b01(f.encrypted)} {b01(f.broadcast_key)} {b01(f.compressed)}"
             return fw.Case(f"fld scf from {v}", impl, "prop", d, tags)
         if op == "inv_to":
@@ -93,7 +111,7 @@ class C20(fw.Prop):
 
             def impl():
                 from dlms_cosem.protocol.xdlms.invoke_id_and_priority import InvokeIdAndPriority
-                f = InvokeIdAndPriority.from_bytes(bytes([v]))
+                f = fresh_decode(lambda: InvokeIdAndPriority.from_bytes(bytes([v])))
                 return f"ok {f.invoke_id} {b01(f.confirmed)} {b01(f.high_priority)}"
             return fw.Case(f"fld inv from {v}", impl, "prop", d, tags)
         if op == "clk_to":
@@ -108,7 +126,7 @@ class C20(fw.Prop):
 
             def impl():
                 from dlms_cosem.time import ClockStatus
-                c = ClockStatus.from_bytes(bytes([v]))
+                c = fresh_decode(lambda: ClockStatus.from_bytes(bytes([v])))
                 return "ok " + " ".join(b01(x) for x in (c.invalid, c.doubtful, c.different_base, c.invalid_status, c.daylight_saving_active))
             return fw.Case(f"fld clk from {v}", impl, "prop", d, tags)
         if op == "ctl_const":
@@ -148,7 +166,7 @@ class C20(fw.Prop):
 
             def impl():
                 from dlms_cosem.hdlc import fields as hf
-                c = hf.InformationControlField.from_bytes(bytes([v]))
+                c = fresh_decode(lambda: hf.InformationControlField.from_bytes(bytes([v])))
                 return f"ok {c.send_sequence_number} {c.receive_sequence_number} {b01(c.final)}"
             return fw.Case(f"fld ctl ifrom {v}", impl, "prop", d, tags)
         if op == "ui_to":
@@ -176,7 +194,7 @@ class C20(fw.Prop):
 
             def impl():
                 from dlms_cosem.hdlc import fields as hf
-                f = hf.DlmsHdlcFrameFormatField.from_bytes(w.to_bytes(2, "big"))
+                f = fresh_decode(lambda: hf.DlmsHdlcFrameFormatField.from_bytes(w.to_bytes(2, "big")))
                 return f"ok {f.length} {b01(f.segmented)}"
             return fw.Case(f"fld fmt from {w:04x}", impl, "prop", d, tags)
         if op == "linv_to":
@@ -195,7 +213,7 @@ class C20(fw.Prop):
 
             def impl():
                 from dlms_cosem.protocol.xdlms.data_notification import LongInvokeIdAndPriority as L
-                f = L.from_bytes(w.to_bytes(4, "big"))
+                f = fresh_decode(lambda: L.from_bytes(w.to_bytes(4, "big")))
                 return f"ok {f.long_invoke_id} {b01(f.prioritized)} {b01(f.confirmed)} {b01(f.break_on_error)} {b01(f.self_descriptive)}"
             return fw.Case(f"fld linv from {w:08x}", impl, "prop", d, tags)
         if op == "obis_to":
